@@ -66,10 +66,10 @@ def _get_terms(s, icpt, flags, avail):
     return parser_for(icpt, flags).get_terms(s, context=ctx)
 
 
-def run(s, icpt, flags, avail):
+def run(s, icpt, flags, avail, watchdog=WATCHDOG_S):
     """('OK', None) | ('REJECT', exc name) | ('SYNTAXERROR', where) | ('TIMEOUT', None) | ('ESCAPE', 'Type@function', msg)"""
     try:
-        with_timeout(WATCHDOG_S, _get_terms, s, icpt, flags, avail)
+        with_timeout(watchdog, _get_terms, s, icpt, flags, avail)
     except FormulaParsingError as e:
         return ("REJECT", type(e).__name__)
     except Timeout:
@@ -136,15 +136,17 @@ def repro(s, icpt, flags, avail):
             ".get_terms(%r, context=%r)" % (icpt, set(flags), s, {"__formulaic_variables_available__": avail} if avail is not None else {}))
 
 
-def judge(col, tag, s, icpt, flags, avail, lx=None):
+def judge(col, tag, s, icpt, flags, avail, lx=None, watchdog=WATCHDOG_S, shown=None):
+    """shown: a short Python expression that builds s (for very long inputs); used in key and repro instead of repr(s)"""
     lx = lx or LX.lex(s)
-    got = run(s, icpt, flags, avail)
+    got = run(s, icpt, flags, avail, watchdog)
     cfg = "icpt=%s flags=%s avail=%s" % (icpt, "+".join(flags) or "NONE", avail)
-    key = "%s :: %r %s" % (tag, s, cfg)
+    key = "%s :: %s %s" % (tag, shown or repr(s), cfg)
 
     def detail(**extra):
-        d = {"formula": s, "include_intercept": icpt, "feature_flags": list(flags), "available": avail,
-             "outcome": got, "reference_tokens": repr(lx.tokens), "repro": repro(s, icpt, flags, avail)}
+        d = {"formula": s if shown is None else shown, "include_intercept": icpt, "feature_flags": list(flags), "available": avail,
+             "outcome": got, "reference_tokens": repr(lx.tokens)[:400],
+             "repro": repro(s, icpt, flags, avail) if shown is None else repro("@@", icpt, flags, avail).replace("'@@'", shown)}
         d.update(extra)
         return d
 
@@ -153,7 +155,7 @@ def judge(col, tag, s, icpt, flags, avail, lx=None):
     k = got[0]
     col.count("outcome-" + k.lower())
     if k == "TIMEOUT":
-        col.violation(key, detail(), sig="no-termination-within-5s")
+        col.violation(key, detail(), sig="no-termination-within-%gs" % watchdog)
     elif k == "ESCAPE":
         col.violation(key, detail(), sig=got[1])
     elif k == "SYNTAXERROR":
@@ -291,18 +293,30 @@ def drv_multistage(c, ctx, col):
 # histories of feature-flag changes on ONE parser object --------------------------
 
 PROBES = ["y ~ x", "a | b", "[a ~ b]", "y ~ a | b"]
-SPEC_FORMS = ["enum", "set"]
+SPEC_FORMS = ["enum", "set", "SET", "names"]
 TARGETS = ["parser", "resolver"]
+COPIES = ["pickle", "deepcopy"]
 
 
 def flag_spec(flags, form):
-    """the same flag subset as a FeatureFlags value or as a set of (lower-case) strings"""
+    """the same flag subset in every accepted spelling: a FeatureFlags value, a set of lower-/upper-case flag names,
+    or a set that uses the convenience names ('all', 'default', 'none')"""
     from formulaic.parser import DefaultFormulaParser
+    FF = DefaultFormulaParser.FeatureFlags
     if form == "set":
         return {f.lower() for f in flags}
-    v = DefaultFormulaParser.FeatureFlags.NONE
+    if form == "SET":
+        return {f.upper() for f in flags}
+    if form == "names":
+        fs = set(flags)
+        if fs == set(ALL_FLAGS):
+            return {"all"}
+        if {"TWOSIDED", "MULTIPART"} <= fs:
+            return {"default"} | {f.lower() for f in fs - {"TWOSIDED", "MULTIPART"}}
+        return {"none"} | {f.lower() for f in fs}
+    v = FF.NONE
     for f in flags:
-        v |= getattr(DefaultFormulaParser.FeatureFlags, f)
+        v |= getattr(FF, f)
     return v
 
 
@@ -320,36 +334,35 @@ def run_on(parser, s):
 
 
 def drv_flag_histories(c, ctx, col):
-    """A parser object is constructed with one flag subset, optionally used, and then re-configured by a history of
-    set_feature_flags calls -- on the parser or directly on its operator resolver, with the subset given as a
-    FeatureFlags value or as a set of strings -- optionally parsing between the calls.  After (almost) every step the
-    probe formulas must behave exactly as on a fresh parser constructed with the flags now in force; in particular
-    an operator that those flags disable must be rejected."""
-    from formulaic.parser import DefaultFormulaParser
+    """A parser object is constructed with one flag subset -- given in any accepted spelling, directly or together with a
+    pre-configured DefaultOperatorResolver -- optionally used, and then taken through a history of events: set_feature_flags
+    on the parser or directly on its operator resolver (subset in any spelling), or replacing the object by its pickle
+    round-trip / deep copy; optionally parsing between the events.  After construction (histories of length 0) and after
+    (almost) every event the probe formulas must behave exactly as on a fresh parser constructed in the plainest way with
+    the flags now in force; in particular an operator that those flags disable must be rejected."""
+    import copy
+    import pickle
 
-    init = c.pick(ctx["init_flags"])
-    init_form = c.pick(ctx["init_forms"])
-    warm = c.flag()          # parse once before the first change (builds the cached operator table)
-    n = 1 + c.upto(ctx["depth"] - 1)
-    parser = DefaultFormulaParser(feature_flags=flag_spec(init, init_form))
-    hist = ["DefaultFormulaParser(feature_flags=%r)" % (flag_spec(init, init_form),)]
+    from formulaic.parser import DefaultFormulaParser, DefaultOperatorResolver
+
+    flags = c.pick(ctx["init_flags"])
+    how = c.pick(ctx["init_forms"])          # spelling of the constructor argument, or ("resolver", f1, f2)
+    if isinstance(how, tuple):
+        parser = DefaultFormulaParser(operator_resolver=DefaultOperatorResolver(feature_flags=flag_spec(flags, how[1])),
+                                      feature_flags=flag_spec(flags, how[2]))
+        hist = ["DefaultFormulaParser(operator_resolver=DefaultOperatorResolver(feature_flags=%r), feature_flags=%r)"
+                % (flag_spec(flags, how[1]), flag_spec(flags, how[2]))]
+    else:
+        parser = DefaultFormulaParser(feature_flags=flag_spec(flags, how))
+        hist = ["DefaultFormulaParser(feature_flags=%r)" % (flag_spec(flags, how),)]
+    n = ctx["min_depth"] + c.upto(ctx["depth"] - ctx["min_depth"])
+    warm = c.flag() if n > 0 else False      # parse once before the first event (builds the cached operator table)
     if warm:
         for s in PROBES:
             run_on(parser, s)
         hist.append("parse each of %r" % (PROBES,))
-    subsets = ctx["subsets"] if n <= 2 else ctx["subsets_deep"]
-    for step in range(n):
-        target, form, flags = c.pick(TARGETS), c.pick(SPEC_FORMS), c.pick(subsets)
-        spec = flag_spec(flags, form)
-        if target == "parser":
-            parser.set_feature_flags(spec)
-            hist.append("p.set_feature_flags(%r)" % (spec,))
-        else:
-            parser.operator_resolver.set_feature_flags(spec)
-            hist.append("p.operator_resolver.set_feature_flags(%r)" % (spec,))
-        last = step == n - 1
-        if not last and not c.flag():
-            continue             # two changes in a row without a parse in between
+
+    def probe():
         for s in PROBES:
             got = run_on(parser, s)
             col.interesting()
@@ -361,15 +374,149 @@ def drv_flag_histories(c, ctx, col):
                 col.violation(key, detail, sig=got[1] or "no-termination-within-5s")
             elif got[0] == "OK" and need:
                 col.violation(key, dict(detail, disabled_but_needed=sorted(need)),
-                              sig="disabled-operator-accepted-on-reconfigured-parser:" + "+".join(sorted(need)))
+                              sig="disabled-operator-accepted-on-%s-parser:%s" % ("reconfigured" if len(hist) > 1 else "constructed", "+".join(sorted(need))))
             else:
                 fresh = run(s, True, tuple(flags), None)
                 if fresh[0] != got[0]:
-                    col.violation(key, dict(detail, fresh_parser_outcome=fresh), sig="reconfigured-parser-differs-from-fresh-parser")
+                    col.violation(key, dict(detail, fresh_parser_outcome=fresh),
+                                  sig="%s-parser-differs-from-plainly-constructed-parser" % ("reconfigured" if len(hist) > 1 else "constructed"))
                 elif need:
                     col.count("disabled-operator-rejected")
         hist.append("parse each of %r" % (PROBES,))
+
+    if n == 0:
+        probe()
+    subsets = ctx["subsets"] if n <= 2 else ctx["subsets_deep"]
+    for step in range(n):
+        target = c.pick(TARGETS + COPIES)
+        if target in COPIES:
+            try:
+                parser = pickle.loads(pickle.dumps(parser)) if target == "pickle" else copy.deepcopy(parser)
+            except Exception as e:  # noqa
+                col.violation("flag-history :: %s ; then %s" % (" ; ".join(hist), target), {"history": list(hist), "error": repr(e)},
+                              sig="parser-cannot-be-copied:" + type(e).__name__)
+                return
+            hist.append("p = pickle.loads(pickle.dumps(p))" if target == "pickle" else "p = copy.deepcopy(p)")
+        else:
+            form, flags = c.pick(ctx["step_forms"]), c.pick(subsets)
+            spec = flag_spec(flags, form)
+            if target == "parser":
+                parser.set_feature_flags(spec)
+                hist.append("p.set_feature_flags(%r)" % (spec,))
+            else:
+                parser.operator_resolver.set_feature_flags(spec)
+                hist.append("p.operator_resolver.set_feature_flags(%r)" % (spec,))
+        if step < n - 1 and not c.flag():
+            continue             # two events in a row without a parse in between
+        probe()
     col.sample({"history": hist})
+
+
+# valid Python fragments with unusual callee / node shapes, in every operand position ---------------------------
+
+PY_SHAPES = [
+    "f(a)[0](b)", "fs[0](a)", "f(a)(b)", "f(a).g(b)", "fs[0][1](a, b)", "m.fs[0](a)", "f(a)[0]", "f(a).b", "f(g(a))(b)",
+    "{(lambda v: v)(a)}", "{(f or g)(a)}", "{(f if c else g)(a)}", "{[f][0](a)}", "{{'k': f}['k'](a)}", "{(f, g)[0](a)}",
+    "{f(a)(b)(c)}", "{(f)(a)}", "{(not f)(a)}", "{(-f)(a)}", "{(f + g)(a)}", '{f"{a}"}', "{[v for v in a]}", "{{v: v for v in a}}",
+    "{{v for v in a}}", "{(v for v in a)}", "{a[b:c, ...]}", "{a[::2]}", "{(y := a)}", "{lambda: a}", "{lambda v=a: v}",
+    "{a if b else c}", "{a < b < c}", "{a and b or c}", "{not a}", "{-a}", "{~a}", "{a @ b}", "{(a, b)}", "{[*a]}", "{f(*a, **k)}",
+    "{a.b.c}", "{a.b(c).d}", "{b'x'}", "{...}", "{None}", "{1j}", "{a[0].b[1]}", "{await a}", "{a is not b}", "{a not in b}",
+]
+PY_POSITIONS = ["%s", "%s ~ x", "%s + y ~ x", "y ~ %s", "%s ~ .", "y | %s ~ x", "%s | z ~ x", "[%s ~ x]", "y ~ [%s ~ z]", "%s:a ~ x",
+                "(%s) ~ x"]
+
+
+def drv_py_shapes(c, ctx, col):
+    frag = c.pick(ctx["fragments"])
+    pos = c.pick(PY_POSITIONS)
+    s = pos % frag
+    icpt = not c.flag()
+    flags = ALL_FLAGS if "[" in pos else FLAG_SETS[0]
+    avail = ["a", "b"] if "." in pos.replace("%s", "") else None
+    judge(col, "py-shapes", s, icpt, flags, avail)
+    col.sample({"formula": s, "include_intercept": icpt})
+
+
+# several back-quoted names that sanitize to the same Python alias ------------------------------------------------
+
+COLLIDING = [["a b", "a+b", "a-b", "a:b"], ["x 1", "x.1", "x-1", "x(1"], ["1", "_1", " 1", "+1"]]
+COLLISION_WATCHDOG_S = 2.0
+
+
+def drv_alias_collisions(c, ctx, col):
+    fam = c.pick(COLLIDING)
+    k = 2 + c.upto(2)
+    names, pool = [], list(fam)
+    for _ in range(k):                        # every ordered selection of k distinct names
+        names.append(pool.pop(c.choose(len(pool))))
+    if c.flag():
+        names = names + [names[0]]            # ... optionally mentioning the first one again
+    form = c.pick(["f(%s)", "{%s}", "f(%s) ~ x"])
+    args = (", " if form.startswith("f(") else " + ").join("`%s`" % n for n in names)
+    s = form % args
+    judge(col, "alias-collisions", s, True, FLAG_SETS[0], None, watchdog=COLLISION_WATCHDOG_S)
+    col.sample({"formula": s})
+
+
+# long inputs (a different axis from the length-bounded enumerations) ---------------------------------------------
+
+LONG_COUNTS = [10, 100, 1000, 3000]
+LONG_WATCHDOG_S = 30.0
+#   name, python expression in n that builds the formula, largest n used
+LONG_CONSTRUCTS = [
+    ("distinct names joined by +", "'+'.join('a%d' % i for i in range(n))", 3000),
+    ("one name joined by +", "'+'.join(['a'] * n)", 3000),
+    ("names joined by -", "'-'.join('a%d' % i for i in range(n))", 3000),
+    ("names joined by :", "':'.join('a%d' % i for i in range(n))", 1000),
+    ("names nested with /", "'/'.join('a%d' % i for i in range(n))", 100),
+    ("parts joined by |", "'|'.join('a%d' % i for i in range(n))", 1000),
+    ("nested parentheses", "'(' * n + 'a' + ')' * n", 3000),
+    ("nested square brackets", "'[' * n + 'a' + ']' * n", 3000),
+    ("unclosed parentheses", "'(' * n + 'a'", 3000),
+    ("unopened parentheses", "'a' + ')' * n", 3000),
+    ("nested calls", "'f(' * n + 'a' + ')' * n", 3000),
+    ("nested subscripts", "'a' + '[0]' * n", 3000),
+    ("call with a long sum", "'f(' + '+'.join(['a'] * n) + ')'", 3000),
+    ("braces with a long sum", "'{' + '+'.join(['a'] * n) + '}'", 3000),
+    ("call with many arguments", "'f(' + ','.join(['a'] * n) + ')'", 3000),
+    ("call with many back-quoted names", "'f(' + ','.join('`a %d`' % i for i in range(n)) + ')'", 1000),
+    ("nested braces", "'{' * n + 'a' + '}' * n", 3000),
+    ("run of signs", "'a ' + '+-' * n + ' b'", 3000),
+    ("leading run of minus signs", "'-' * n + 'a'", 3000),
+    ("run of operators", "'a ' + '*:/' * n + ' b'", 3000),
+    ("long name", "'a' * n", 3000),
+    ("long number", "'1' * n + ':a'", 3000),
+    ("long exponent", "'(a+b)**' + '9' * (n // 100 + 1)", 3000),
+    ("long back-quoted name", "'`' + 'a b' * n + '`'", 3000),
+    ("long string literal", "'f(\"' + 'a)' * n + '\")'", 3000),
+    ("many back-quoted operands", "'+'.join('`a %d`' % i for i in range(n))", 3000),
+    ("long white space", "'a' + ' \\t\\n' * n + '+ b'", 3000),
+    ("unterminated quote after a long prefix", "'a+' * n + '`b'", 3000),
+]
+
+
+def drv_long(c, ctx, col):
+    name, expr, nmax = c.pick(LONG_CONSTRUCTS)
+    n = c.pick(LONG_COUNTS)
+    if n > nmax:
+        raise Skip()
+    s = eval(expr, {"n": n})
+    icpt = not c.flag()
+    flags = ALL_FLAGS if "[" in s else FLAG_SETS[0]
+    judge(col, "long/%s" % name, s, icpt, flags, None, watchdog=LONG_WATCHDOG_S, shown="(lambda n: %s)(%d)" % (expr, n))
+    col.sample({"construct": name, "n": n, "length": len(s)})
+
+
+# code points that need care when text is handed to other layers ----------------------------------------------------
+
+CODEPOINTS = ["a", "+", "(", ")", "{", "}", "`", "'", "\x00", "\ud800", "\udfff", "\U0001f600", "\u00a0", "\x85", "\ufeff", "\u0301", "\u202e"]
+
+
+def drv_codepoints(c, ctx, col):
+    s = "".join(c.seq(CODEPOINTS, ctx["L"], 1))
+    icpt = not c.flag() if len(s) <= 2 else True
+    judge(col, "codepoints", s, icpt, FLAG_SETS[0], None, shown=ascii(s))
+    col.sample({"formula": ascii(s)})
 
 
 # ---------------------------------------------------------------------------
@@ -411,15 +558,41 @@ def subchecks(tier, seed):
         Sub("multistage", drv_multistage, {}, shard_depth=1,
             bounds={"operators": OPS, "operands": MS_OPERANDS, "shapes": MS_SHAPES, "flag_sets": [list(f) for f in MS_FLAGS]}),
     ]
+    res_forms = [("resolver", f1, f2) for f1 in SPEC_FORMS for f2 in SPEC_FORMS]
+    subs.append(Sub("flag-configs", drv_flag_histories,
+                    {"init_flags": FLAG_SETS, "init_forms": SPEC_FORMS + res_forms, "min_depth": 0, "depth": 1 if quick else 2,
+                     "step_forms": SPEC_FORMS, "subsets": FLAG_SETS, "subsets_deep": FLAG_SETS}, shard_depth=3,
+                    bounds={"constructed_with": "all 8 subsets x {FeatureFlags value, set of lower-case names, set of upper-case names, "
+                                                "set using 'all'/'default'/'none'} given to DefaultFormulaParser(feature_flags=...), and the "
+                                                "16 spelling pairs of DefaultFormulaParser(operator_resolver=DefaultOperatorResolver("
+                                                "feature_flags=S), feature_flags=S)",
+                            "events": "0..1" if quick else "0..2",
+                            "each_event": "set_feature_flags on {parser, resolver} x 4 spellings x 8 subsets, or pickle round-trip, or deepcopy",
+                            "parse_before_first_event": [False, True], "probe_formulas": PROBES}))
     subs.append(Sub("flag-histories", drv_flag_histories,
-                    {"init_flags": [ALL_FLAGS, (), FLAG_SETS[0]] if quick else FLAG_SETS, "init_forms": ["enum"] if quick else SPEC_FORMS,
-                     "depth": 2 if quick else 3, "subsets": FLAG_SETS, "subsets_deep": [ALL_FLAGS, ()]},
-                    shard_depth=4,
+                    {"init_flags": [ALL_FLAGS, (), FLAG_SETS[0]] if quick else FLAG_SETS, "init_forms": ["enum"] if quick else ["enum", "set"],
+                     "min_depth": 2, "depth": 2 if quick else 3, "step_forms": ["enum", "set"], "subsets": FLAG_SETS,
+                     "subsets_deep": [ALL_FLAGS, ()]}, shard_depth=4,
                     bounds={"constructed_with": "ALL, NONE, DEFAULT" if quick else "all 8 subsets, as FeatureFlags value and as set of strings",
-                            "parse_before_first_change": [False, True], "changes": "1..2" if quick else "1..3",
-                            "each_change": "set_feature_flags on {parser, parser.operator_resolver} x {FeatureFlags value, set of str} x "
-                                           "all 8 subsets (histories of 3 changes: the subsets ALL and NONE)",
-                            "parse_between_changes": [False, True], "probe_formulas": PROBES}))
+                            "parse_before_first_event": [False, True], "events": "2" if quick else "2..3",
+                            "each_event": "set_feature_flags on {parser, parser.operator_resolver} x {FeatureFlags value, set of str} x "
+                                          "all 8 subsets (histories of 3 events: the subsets ALL and NONE), or pickle round-trip, or deepcopy",
+                            "parse_between_events": [False, True], "probe_formulas": PROBES}))
+    from props.c15 import PY_EXPRS
+    frags = PY_SHAPES + ["{%s}" % e for e, _ in PY_EXPRS] + [e for e, bare in PY_EXPRS if bare]
+    subs.append(Sub("py-shapes", drv_py_shapes, {"fragments": frags}, shard_depth=1,
+                    bounds={"fragments": "%d valid Python fragments (unusual callees: subscript, call result, lambda, boolean/conditional "
+                                         "expression, container element; every expression node type; C15's pool in brace and call form)" % len(frags),
+                            "positions": PY_POSITIONS, "intercept": "both"}))
+    subs.append(Sub("alias-collisions", drv_alias_collisions, {}, shard_depth=2,
+                    bounds={"families": COLLIDING, "names_per_fragment": "every ordered selection of 2, 3, 4 distinct names, optionally "
+                                                                          "repeating the first", "forms": ["f(..)", "{.. + ..}", "f(..) ~ x"],
+                            "watchdog_s": COLLISION_WATCHDOG_S}))
+    subs.append(Sub("long-inputs", drv_long, {}, shard_depth=2,
+                    bounds={"repetitions": LONG_COUNTS, "constructs": [(nm, ex, mx) for nm, ex, mx in LONG_CONSTRUCTS],
+                            "watchdog_s": LONG_WATCHDOG_S}))
+    subs.append(Sub("codepoints", drv_codepoints, {"L": 3 if quick else 4}, shard_depth=2,
+                    bounds={"alphabet": [ascii(ch) for ch in CODEPOINTS], "max_length": 3 if quick else 4}))
     if quick:
         subs.append(Sub("chars14", drv_chars, {"alphabet": CHARS14, "L": 5, "all_flags_upto": 0, "both_icpt_upto": 4,
                                                "flag_variation": False, "tag": "chars14"},
